@@ -2,6 +2,8 @@ import EinoV.Basic.JsonUtil
 import EinoV.Model.C09
 import EinoV.Model.C09Opt
 import EinoV.Model.C09Err
+import EinoV.Model.C09Cb
+import EinoV.Model.C09Flight
 import EinoV.Expected.C09
 
 namespace EinoV.Oracle.C09
@@ -106,6 +108,82 @@ def handleOptShare (c : Json) : JE Json := do
     ("alone", J.mkStrs al),
     ("complete", Json.bool (seen.all (·.isSome)))]
 
+/-! ### family "cbshare": callback handlers of concurrent runs (Model/C09Cb.lean) -/
+
+def hdTags (hs : List EinoV.C10.Hd) : String :=
+  Tools.joinWith "," (hs.map fun h => "h" ++ toString h.id)
+
+/-- one unit of one run: start callbacks run the handlers last to first, end callbacks first to last -/
+def renderUnit (p : Opt.Path) (s : Option (List EinoV.C10.Hd)) : String :=
+  p.getLastD "top" ++ "=" ++
+    (match s with
+     | some hs => "S:" ++ hdTags hs.reverse ++ "/E:" ++ hdTags hs
+     | none => "?")
+
+def renderUnits (sites : List Opt.Path) (seen : List (Option (List EinoV.C10.Hd))) : String :=
+  Tools.joinWith "|" ((sites.zip seen).map fun (p, s) => renderUnit p s)
+
+/-- case: {"family":"cbshare","sites":[[path]] ([] = the called graph),"shared":[group],"parents":[group],
+           "calls":[{"parent":k (0 = context without manager, k>0 = parents[k-1]),"groups":[group]}],
+           "sched":[thread indices; thread = call * |sites| + site]}
+    group as in "optshare" (`opts` = handler ids).
+    answer per call: for every unit the handler list in force, rendered as the order of the start and
+    of the end callbacks; alone = the specification `Cb.inForce`, interleaved = what the slice-level
+    machine (with the Expected facts) lets every unit read under `sched`. -/
+def handleCbShare (c : Json) : JE Json := do
+  let sites ← (← J.arr c "sites").mapM fun j => do (← J.asArr j).mapM J.asStr
+  let shared ← (← J.arr c "shared").mapM parseGroup
+  let parents ← (← J.arr c "parents").mapM parseGroup
+  let rawCalls ← (← J.arr c "calls").mapM fun j => do
+    pure (J.natD j "parent" 0, (← (← J.arr j "groups").mapM parseGroup))
+  let sched ← J.natList c "sched"
+  let h0s : EinoV.C10.Heap := shared.map arrayOf ++ parents.map arrayOf
+  let (h0, groups) := buildCalls shared (rawCalls.map (·.2)) h0s []
+  let inhOf : Nat → EinoV.C10.Slice := fun k =>
+    if k = 0 then EinoV.C10.Slice.nil
+    else match parents[k - 1]? with
+      | some pg => sliceOf (shared.length + (k - 1)) pg
+      | none => EinoV.C10.Slice.nil
+  let calls : List Cb.Call := (rawCalls.zip groups).map fun ((k, _), gs) => ⟨inhOf k, gs⟩
+  let threads : List (Nat × Opt.Path) :=
+    (List.range calls.length).flatMap fun i => sites.map fun p => (i, p)
+  let seen := Cb.seenAll Expected.C09.cbFacts h0 (Cb.progOf calls threads) sched
+  let k := sites.length
+  let al := calls.map fun cl => renderUnits sites (sites.map fun p => some (Cb.inForce h0 cl.inh cl.gs p))
+  let inter := (List.range calls.length).map fun i => renderUnits sites ((seen.drop (i * k)).take k)
+  pure <| Json.mkObj [
+    ("interleaved", J.mkStrs inter),
+    ("alone", J.mkStrs al),
+    ("complete", Json.bool (seen.all (·.isSome)))]
+
+/-! ### family "inflight": many runs held in flight at once (Model/C09Flight.lean) -/
+
+def spanDone (st : Flight.St) (base span : Nat) : Bool :=
+  (List.range span).all fun d => st.get (base + d) == .done
+
+def flightInter (st : Flight.St) : List Flight.Run → Nat → List String
+  | [], _ => []
+  | r :: rest, base =>
+    (if spanDone st base r.span then Flight.runOut r else "?") :: flightInter st rest (base + r.span)
+
+/-- case: {"family":"inflight","runs":[{"tok":..,"calls":k,"inner":m}],"sched":[call indices]}
+    call indices: run after run, every outer call followed by its m inner calls.
+    answer per run: alone = what the run returns (`Flight.runOut`); interleaved = the same once every
+    call of the run has returned in the machine run under `sched` with the Expected fact
+    (`shared` = some process-wide synchronisation object is used on the run path), "?" otherwise;
+    complete = every call of every run has returned. -/
+def handleInFlight (c : Json) : JE Json := do
+  let runs ← (← J.arr c "runs").mapM fun j => do
+    pure ({ tok := (← J.str j "tok"), calls := J.natD j "calls" 1, inner := J.natD j "inner" 0 } : Flight.Run)
+  let sched ← J.natList c "sched"
+  let cs := Flight.build runs
+  if !Flight.wfb cs then throw "inflight: the generated call array is not well formed"
+  let st := Flight.exec Expected.C09.sharedSyncOnRunPath 0 cs sched (Flight.St.init cs.size)
+  pure <| Json.mkObj [
+    ("interleaved", J.mkStrs (flightInter st runs 0)),
+    ("alone", J.mkStrs (runs.map Flight.runOut)),
+    ("complete", Json.bool (Flight.allDone cs st))]
+
 /-! ### family "toollist": a ToolsNode run with a `WithToolList` call option -/
 
 def parseTool (j : Json) : JE (String × String) := do pure ((← J.str j "name"), (← J.str j "mark"))
@@ -206,6 +284,8 @@ def handle (c : Json) : JE Json :=
   match J.strD c "family" "" with
   | "errpath" => handleErrPath c
   | "optshare" => handleOptShare c
+  | "cbshare" => handleCbShare c
+  | "inflight" => handleInFlight c
   | "toollist" => handleToolList c
   | _ => handleLayered c
 
